@@ -171,12 +171,12 @@ def model_check(spec, cfgname, tag, workers=4, timeout=3600, xmx="6g", coverage=
     return dict(spec=spec, cfg=cfgname, states=dist, transitions=gen, never_taken=zero)
 
 
-def apalache_check(module, cinit, inv, tag, expect_ok=True, timeout=1800):
+def apalache_check(module, cinit, inv, tag, expect_ok=True, timeout=1800, init="Init", nxt="Next", length=0):
     """One Apalache obligation `Init => inv` (--length=0) of a module under spec/apalache: the SMT solver decides it
     for all values of the variables (full-width integer statements TLC can only enumerate at toy size).
     expect_ok=False is a deliberately wrong variant that must be refuted (non-vacuity of the encoding)."""
     outdir = os.path.join(WORK, "apalache-" + tag)
-    cmd = ["apalache-mc", "check", "--init=Init", "--next=Next", "--inv=" + inv, "--length=0", "--out-dir=" + outdir]
+    cmd = ["apalache-mc", "check", "--init=" + init, "--next=" + nxt, "--inv=" + inv, "--length=%d" % length, "--out-dir=" + outdir]
     if cinit:
         cmd.append("--cinit=" + cinit)
     cmd.append(os.path.join(SPEC, "apalache", module + ".tla"))
@@ -188,8 +188,8 @@ def apalache_check(module, cinit, inv, tag, expect_ok=True, timeout=1800):
         raise ToolError("Apalache obligation %s/%s/%s not discharged:\n%s" % (module, cinit, inv, r.stdout[-3000:]))
     if not expect_ok and not refuted:
         raise ToolError("Apalache did not refute the wrong variant %s/%s/%s:\n%s" % (module, cinit, inv, r.stdout[-3000:]))
-    return dict(spec="apalache/" + module, cfg="%s %s" % (cinit, inv), states=0, transitions=0, never_taken=[],
-                tool="apalache-mc 0.58 (SMT, --length=0)", outcome="discharged for all values" if expect_ok else "wrong variant refuted")
+    return dict(spec="apalache/" + module, cfg="%s %s init=%s next=%s length=%d" % (cinit, inv, init, nxt, length), states=0, transitions=0,
+                never_taken=[], tool="apalache-mc 0.58 (SMT)", outcome="discharged for all values" if expect_ok else "wrong variant refuted")
 
 
 # ---------------------------------------------------------------- findings
@@ -403,8 +403,10 @@ class Check:
 
     def run_apalache_jobs(self, jobs, parallel=3):
         def one(j):
-            return apalache_check(j["module"], j.get("cinit"), j["inv"], "%s-%s-%s-%s" % (self.prop, j["module"], j.get("cinit"), j["inv"]),
-                                  expect_ok=j.get("expect_ok", True), timeout=j.get("timeout", 1800))
+            return apalache_check(j["module"], j.get("cinit"), j["inv"],
+                                  "%s-%s-%s-%s-%s" % (self.prop, j["module"], j.get("cinit"), j["inv"], j.get("init", "Init")),
+                                  expect_ok=j.get("expect_ok", True), timeout=j.get("timeout", 1800),
+                                  init=j.get("init", "Init"), nxt=j.get("next", "Next"), length=j.get("length", 0))
         with ThreadPoolExecutor(max_workers=parallel) as ex:
             for r in ex.map(one, jobs):
                 self.mc.append(r)
